@@ -14,12 +14,12 @@ open Gen (DExp SExp)
 
 /-! ### server.go validNodeAddr and Server.TraversalNodeFilter -/
 
-def vnaLetsExpected : List String := ["ua := addr.(*net.UDPAddr)", "ip4 := ua.IP.To4()"]
+def vnaLetsExpected : List String := ["$1 := addr.(*net.UDPAddr)", "$2 := $1.IP.To4()"]
 
 /-- `ua` is the UDP address (IP bytes, port), `ip4` its `To4()`. -/
 def vnaCond (ip : List UInt8) (port : Nat) : String → Option Bool
-  | "ua.Port == 0" => some (port == 0)
-  | "ip4 != nil && ip4[0] == 0" => some (
+  | "$1.Port == 0" => some (port == 0)
+  | "$2 != nil && $2[0] == 0" => some (
     match to4 ip with
     | some v4 => v4.getD 0 0 == 0
     | none => false)
@@ -40,14 +40,14 @@ theorem SourceTrees.validNodeAddr (ip : List UInt8) (port : Nat) :
 
 /-- Negative check: the port test dropped (known atoms): port 0 is accepted. -/
 example : DExp.evalWith (vnaCond [1, 2, 3, 4] 0) boolRet
-      (DExp.ite "ip4 != nil && ip4[0] == 0" (DExp.ret "false") (DExp.ret "true")) = some true ∧
+      (DExp.ite "$2 != nil && $2[0] == 0" (DExp.ret "false") (DExp.ret "true")) = some true ∧
     validNodeAddr [1, 2, 3, 4] 0 = false := by
   constructor <;> decide +kernel
 
 /-- Negative check: `||` for `&&` in the second test: unknown atom, no value for any non-zero port. -/
 example (ip : List UInt8) (port : Nat) (h : (port == 0) = false) :
     DExp.evalWith (vnaCond ip port) boolRet
-      (DExp.ite "ua.Port == 0" (DExp.ret "false") (DExp.ite "ip4 != nil || ip4[0] == 0" (DExp.ret "false") (DExp.ret "true"))) = none := by
+      (DExp.ite "$1.Port == 0" (DExp.ret "false") (DExp.ite "$2 != nil || $2[0] == 0" (DExp.ret "false") (DExp.ret "true"))) = none := by
   simp [DExp.evalWith, vnaCond, h]
 
 /-- `node.Addr.UDP()` / `node.Addr.IP()` are the candidate's IP bytes and port; `validNodeAddr` is read from its
